@@ -500,8 +500,8 @@ theorem initQub_inv (P : Problem α) (pr : Params α) (stop : Nat → Bool) (f :
       · left; simpa using hq
 
 theorem initState_inv (P : Problem α) (d0 : D) (pr : Params α) (stop : Nat → Bool) (x0 gV : Vec α)
-    (gS : α) (hp : ParamsOK pr) :
-    match initState P d0 pr stop x0 gV gS with
+    (gS iS : α) (hp : ParamsOK pr) :
+    match initState P d0 pr stop x0 gV gS iS with
     | .inl _ => True
     | .inr s => s.fuelOut = false → ∀ G I : Prop, (stop s.tick = true → I) → LoopInv G I P pr s := by
   unfold initState
@@ -516,12 +516,12 @@ theorem initState_inv (P : Problem α) (d0 : D) (pr : Params α) (stop : Nat →
         this.2.2, by simp, by simp, by simp⟩
     · have hes := evalStep_fields P pr
         { x := x0, xhat := (initialLipschitz P pr x0).2.2.2.1, gradPsi := (initialLipschitz P pr x0).2.2.1,
-          gradPsiHat := (blankIterate gV gS).gradPsiHat, p := (blankIterate gV gS).p,
-          yhat := (blankIterate gV gS).yhat, psix := (initialLipschitz P pr x0).2.1,
-          psixhat := (blankIterate gV gS).psixhat,
+          gradPsiHat := (blankIterate gV gS iS).gradPsiHat, p := (blankIterate gV gS iS).p,
+          yhat := (blankIterate gV gS iS).yhat, psix := (initialLipschitz P pr x0).2.1,
+          psixhat := (blankIterate gV gS iS).psixhat,
           gamma := pr.LgammaFactor / (initialLipschitz P pr x0).1, L := (initialLipschitz P pr x0).1,
-          pTp := (blankIterate gV gS).pTp, gradPsiTp := (blankIterate gV gS).gradPsiTp,
-          hxhat := (blankIterate gV gS).hxhat, haveGradHat := (blankIterate gV gS).haveGradHat }
+          pTp := (blankIterate gV gS iS).pTp, gradPsiTp := (blankIterate gV gS iS).gradPsiTp,
+          hxhat := (blankIterate gV gS iS).hxhat, haveGradHat := (blankIterate gV gS iS).haveGradHat }
       unfold GammaOK
       rw [hes.1, hes.2.1]
       exact ⟨div_pos hp.lgf hL, hL, div_mul_cancel₀ _ (ne_of_gt hL)⟩
@@ -592,22 +592,22 @@ theorem mainLoop_callbacks_ok (G I : Prop) (hval : Vec α → α) (dom : Vec α 
     tick at which the initialisation ended (the loop polls the flag first, so it was left through the
     poll and not because the quadratic upper bound was met). -/
 def InitInterrupted (P : Problem α) (d0 : D) (pr : Params α) (stop : Nat → Bool) (x0 gV : Vec α)
-    (gS : α) : Prop :=
-  match initState P d0 pr stop x0 gV gS with
+    (gS iS : α) : Prop :=
+  match initState P d0 pr stop x0 gV gS iS with
   | .inl _ => False
   | .inr s => stop s.tick = true
 
 theorem run_callbacks_ok (G : Prop) (hval : Vec α → α) (dom : Vec α → Prop) (P : Problem α)
     (dir : Direction D α) (d0 : D) (pr : Params α)
     (hG : G → pr.recomputeLastProx = false ∧ ∀ γ x g, 0 < γ → ProxOpt hval dom γ x g (P.prox γ x g))
-    (hp : ParamsOK pr) (stop : Nat → Bool) (oot : Bool) (x0 y Sig errz0 gV : Vec α) (gS : α)
-    (hfuel : (run P dir d0 pr stop oot x0 y Sig errz0 gV gS).fuelOut = false) :
-    List.IsChain (Consec G pr) (run P dir d0 pr stop oot x0 y Sig errz0 gV gS).callbacks ∧
-    ∀ cb ∈ (run P dir d0 pr stop oot x0 y Sig errz0 gV gS).callbacks,
-      CbOK (InitInterrupted P d0 pr stop x0 gV gS) pr cb := by
-  have hi := initState_inv P d0 pr stop x0 gV gS hp
+    (hp : ParamsOK pr) (stop : Nat → Bool) (oot : Bool) (x0 y Sig errz0 gV : Vec α) (gS iS : α)
+    (hfuel : (run P dir d0 pr stop oot x0 y Sig errz0 gV gS iS).fuelOut = false) :
+    List.IsChain (Consec G pr) (run P dir d0 pr stop oot x0 y Sig errz0 gV gS iS).callbacks ∧
+    ∀ cb ∈ (run P dir d0 pr stop oot x0 y Sig errz0 gV gS iS).callbacks,
+      CbOK (InitInterrupted P d0 pr stop x0 gV gS iS) pr cb := by
+  have hi := initState_inv P d0 pr stop x0 gV gS iS hp
   unfold run at hfuel ⊢
-  cases hs : initState P d0 pr stop x0 gV gS with
+  cases hs : initState P d0 pr stop x0 gV gS iS with
   | inl t => simp
   | inr s =>
     rw [hs] at hi
@@ -624,22 +624,22 @@ theorem run_callbacks_ok (G : Prop) (hval : Vec α → α) (dom : Vec α → Pro
 
 /-- **The reported step size never increases** along the progress callbacks of a solve. -/
 theorem gamma_antitone (P : Problem α) (dir : Direction D α) (d0 : D) (pr : Params α)
-    (hp : ParamsOK pr) (stop : Nat → Bool) (oot : Bool) (x0 y Sig errz0 gV : Vec α) (gS : α)
-    (hfuel : (run P dir d0 pr stop oot x0 y Sig errz0 gV gS).fuelOut = false) :
+    (hp : ParamsOK pr) (stop : Nat → Bool) (oot : Bool) (x0 y Sig errz0 gV : Vec α) (gS iS : α)
+    (hfuel : (run P dir d0 pr stop oot x0 y Sig errz0 gV gS iS).fuelOut = false) :
     List.IsChain (fun a b : Callback α => b.it.gamma ≤ a.it.gamma)
-      (run P dir d0 pr stop oot x0 y Sig errz0 gV gS).callbacks :=
+      (run P dir d0 pr stop oot x0 y Sig errz0 gV gS iS).callbacks :=
   (run_callbacks_ok False (fun _ => 0) (fun _ => True) P dir d0 pr (fun h => h.elim) hp stop oot
-    x0 y Sig errz0 gV gS hfuel).1.imp (fun _ _ h => h.1)
+    x0 y Sig errz0 gV gS iS hfuel).1.imp (fun _ _ h => h.1)
 
 /-- **`γ·L` of every reported iterate equals `Lγ_factor`** (and `γ, L > 0`): every update is
     `γ/2, L·2`. -/
 theorem gammaL_const (P : Problem α) (dir : Direction D α) (d0 : D) (pr : Params α)
-    (hp : ParamsOK pr) (stop : Nat → Bool) (oot : Bool) (x0 y Sig errz0 gV : Vec α) (gS : α)
-    (hfuel : (run P dir d0 pr stop oot x0 y Sig errz0 gV gS).fuelOut = false) :
-    ∀ cb ∈ (run P dir d0 pr stop oot x0 y Sig errz0 gV gS).callbacks,
+    (hp : ParamsOK pr) (stop : Nat → Bool) (oot : Bool) (x0 y Sig errz0 gV : Vec α) (gS iS : α)
+    (hfuel : (run P dir d0 pr stop oot x0 y Sig errz0 gV gS iS).fuelOut = false) :
+    ∀ cb ∈ (run P dir d0 pr stop oot x0 y Sig errz0 gV gS iS).callbacks,
       cb.it.gamma * cb.it.L = pr.LgammaFactor ∧ 0 < cb.it.gamma ∧ 0 < cb.it.L := fun cb hcb =>
   have h := ((run_callbacks_ok False (fun _ => 0) (fun _ => True) P dir d0 pr (fun h => h.elim) hp stop oot
-    x0 y Sig errz0 gV gS hfuel).2 cb hcb).gok
+    x0 y Sig errz0 gV gS iS hfuel).2 cb hcb).gok
   ⟨h.2.2, h.1, h.2.1⟩
 
 /-- **Every iterate handed to the callback satisfies the quadratic upper bound unless `L ≥ L_max`**
@@ -651,14 +651,14 @@ theorem gammaL_const (P : Problem α) (dir : Direction D α) (d0 : D) (pr : Para
     (`Props/C19_Panoc.init_interrupted_single_callback`). -/
 theorem reported_iterate_qub_run (P : Problem α) (dir : Direction D α) (d0 : D) (pr : Params α)
     (hp : ParamsOK pr) (hrec : pr.recomputeLastProx = false) (stop : Nat → Bool) (oot : Bool)
-    (x0 y Sig errz0 gV : Vec α) (gS : α)
-    (hfuel : (run P dir d0 pr stop oot x0 y Sig errz0 gV gS).fuelOut = false) :
-    ∀ cb ∈ (run P dir d0 pr stop oot x0 y Sig errz0 gV gS).callbacks,
+    (x0 y Sig errz0 gV : Vec α) (gS iS : α)
+    (hfuel : (run P dir d0 pr stop oot x0 y Sig errz0 gV gS iS).fuelOut = false) :
+    ∀ cb ∈ (run P dir d0 pr stop oot x0 y Sig errz0 gV gS iS).callbacks,
       cb.it.psixhat ≤ cb.it.psix + cb.it.gradPsiTp + cb.it.L / 2 * cb.it.pTp +
           (1 + |cb.it.psix|) * pr.qubTol ∨ pr.Lmax ≤ cb.it.L ∨
-      (InitInterrupted P d0 pr stop x0 gV gS ∧ cb.k = 0) := fun cb hcb => by
+      (InitInterrupted P d0 pr stop x0 gV gS iS ∧ cb.k = 0) := fun cb hcb => by
   have h := ((run_callbacks_ok False (fun _ => 0) (fun _ => True) P dir d0 pr (fun h => h.elim) hp stop oot
-    x0 y Sig errz0 gV gS hfuel).2 cb hcb).qub hrec
+    x0 y Sig errz0 gV gS iS hfuel).2 cb hcb).qub hrec
   rcases h with (h | h) | h
   · left; exact qub_accept _ _ _ _ _ _ h
   · right; left; exact h
@@ -669,13 +669,13 @@ theorem reported_iterate_qub_run (P : Problem α) (dir : Direction D α) (d0 : D
     polled the flag. -/
 theorem reported_iterate_qub_run_uninterrupted (P : Problem α) (dir : Direction D α) (d0 : D)
     (pr : Params α) (hp : ParamsOK pr) (hrec : pr.recomputeLastProx = false) (stop : Nat → Bool)
-    (oot : Bool) (x0 y Sig errz0 gV : Vec α) (gS : α)
-    (hfuel : (run P dir d0 pr stop oot x0 y Sig errz0 gV gS).fuelOut = false)
-    (hni : ¬ InitInterrupted P d0 pr stop x0 gV gS) :
-    ∀ cb ∈ (run P dir d0 pr stop oot x0 y Sig errz0 gV gS).callbacks,
+    (oot : Bool) (x0 y Sig errz0 gV : Vec α) (gS iS : α)
+    (hfuel : (run P dir d0 pr stop oot x0 y Sig errz0 gV gS iS).fuelOut = false)
+    (hni : ¬ InitInterrupted P d0 pr stop x0 gV gS iS) :
+    ∀ cb ∈ (run P dir d0 pr stop oot x0 y Sig errz0 gV gS iS).callbacks,
       cb.it.psixhat ≤ cb.it.psix + cb.it.gradPsiTp + cb.it.L / 2 * cb.it.pTp +
           (1 + |cb.it.psix|) * pr.qubTol ∨ pr.Lmax ≤ cb.it.L := fun cb hcb => by
-  rcases reported_iterate_qub_run P dir d0 pr hp hrec stop oot x0 y Sig errz0 gV gS hfuel cb hcb
+  rcases reported_iterate_qub_run P dir d0 pr hp hrec stop oot x0 y Sig errz0 gV gS iS hfuel cb hcb
     with h | h | h
   · exact Or.inl h
   · exact Or.inr h
@@ -693,14 +693,14 @@ theorem accepted_step_descent_loop (hval : Vec α → α) (dom : Vec α → Prop
     (hP : ∀ γ x g, 0 < γ → ProxOpt hval dom γ x g (P.prox γ x g))
     (dir : Direction D α) (d0 : D) (pr : Params α)
     (hp : ParamsOK pr) (hrec : pr.recomputeLastProx = false) (stop : Nat → Bool) (oot : Bool)
-    (x0 y Sig errz0 gV : Vec α) (gS : α)
-    (hfuel : (run P dir d0 pr stop oot x0 y Sig errz0 gV gS).fuelOut = false) :
+    (x0 y Sig errz0 gV : Vec α) (gS iS : α)
+    (hfuel : (run P dir d0 pr stop oot x0 y Sig errz0 gV gS iS).fuelOut = false) :
     List.IsChain (fun a b : Callback α => DescTo pr a b.fbe)
-      (run P dir d0 pr stop oot x0 y Sig errz0 gV gS).callbacks ∧
-    ∀ cb ∈ (run P dir d0 pr stop oot x0 y Sig errz0 gV gS).callbacks,
+      (run P dir d0 pr stop oot x0 y Sig errz0 gV gS iS).callbacks ∧
+    ∀ cb ∈ (run P dir d0 pr stop oot x0 y Sig errz0 gV gS iS).callbacks,
       cb.fbe = cb.it.fbe ∧ (cb.status = .Busy → 0 ≤ cb.tau) := by
   have h := run_callbacks_ok True hval dom P dir d0 pr (fun _ => ⟨hrec, hP⟩) hp stop oot
-    x0 y Sig errz0 gV gS hfuel
+    x0 y Sig errz0 gV gS iS hfuel
   exact ⟨h.1.imp (fun _ _ hc => hc.2 trivial), fun cb hcb => ⟨(h.2 cb hcb).fbe, (h.2 cb hcb).tau⟩⟩
 
 /-! ### Non-vacuity -/
@@ -753,7 +753,7 @@ example : (rq none).fuelOut = false ∧
 
 example : List.IsChain (fun a b : Callback ℚ => b.it.gamma ≤ a.it.gamma) (rq none).callbacks :=
   gamma_antitone Pq dirNoop () prq ⟨by norm_num [prq], by norm_num [prq], by norm_num [prq],
-    by norm_num [prq]⟩ (stopAt none) false [1] [] [] [] [] 0 (by decide +kernel)
+    by norm_num [prq]⟩ (stopAt none) false [1] [] [] [] [] 0 0 (by decide +kernel)
 
 end examples
 
